@@ -83,6 +83,8 @@ def jobs(ctx, names=None, focus=(), record=True, snapshots=True):
                     "task": search.cont_task(obj="sphere", lo=5.0, hi=9.0, seed=sd(), dim=r.choice([2, 4]))})
         r.shuffle(pre)
         add("shared", nm, cfg0, search.cont_task(obj=r.choice(["sphere", "shifted"]), minmax=mm(), seed=sd(), dim=3), pre_jobs=pre)
+        # (h') the direction assigned as the documented string after construction
+        add("assigned-direction", nm, {"max_cycles": 4, "population_size": P0}, search.cont_task(obj=r.choice(["sphere", "shifted"]), minmax=mm(), seed=sd(), raw_minmax=True), trends=True)
         # (h) a bi-level objective: two of its evaluations run another instance of the same class to completion (two runs of one class interleaved in one interpreter)
         add("nested", nm, {"max_cycles": 5, "population_size": P0, "early_stopping": r.choice([None, {"patience": 2, "min_delta": 0.05}])},
             search.cont_task(obj="sphere", minmax=mm(), seed=sd(), dim=2,
